@@ -548,6 +548,12 @@ impl Schedule {
         // remove segment for provider
         let (shrinked_tour_provider, path) = tour_provider.remove(segment)?;
 
+        // a dummy tour keeps only the service trips of the paths it was built from, so two of
+        // its consecutive nodes need not be connectable; a real vehicle only takes a valid path
+        if self.is_dummy(provider) && self.is_vehicle(receiver) {
+            Path::new(path.iter().collect(), self.network.clone())?;
+        }
+
         let moved_nodes: Vec<NodeIdx> = path.iter().collect();
 
         // insert path into tour
@@ -1417,6 +1423,14 @@ impl Schedule {
             }
 
             let (new_tour_provider_candidate, path_for_insertion) = remove_result.unwrap();
+
+            // a part of a dummy tour need not be connectable; a real vehicle only takes a valid path
+            if self.is_dummy(provider)
+                && self.is_vehicle(receiver)
+                && Path::new(path_for_insertion.iter().collect(), self.network.clone()).is_err()
+            {
+                continue;
+            }
 
             // test if inserting sub_segment would cause any conflicts (or fail for other reasons
             if new_tour_receiver.conflict(sub_segment).is_some() {
